@@ -138,6 +138,9 @@ def verify_function(repo, contracts, c, registry=None, scope=None, opts=None):
             if c.free or func.parent is not None:
                 env = Frame(func.parent, func.module)
                 env.locals.update(c.closure_env(E, a))
+                if func.parent is not None:
+                    from .engine import Closure
+                    env.locals.setdefault(func.name, Closure(func, env, None))     # a nested function may call itself
             self_obj = params.pop("self", None)
             kwname = func.node.args.kwarg.arg if func.node.args.kwarg is not None else None
             if kwname is not None and kwname in params:
